@@ -423,6 +423,10 @@ func IfFunc(query *Query, current Map, functionOptions *FunctionOptions, args []
 	if err != nil {
 		return nil, err
 	}
+	// a NULL condition is not true
+	if condition == nil {
+		condition = new(bool)
+	}
 	whenTrue, err := AsType[any](args[1])
 	if err != nil {
 		return nil, err
